@@ -147,23 +147,20 @@ class Plane(GeoBody):
 
     def __hash__(self):
         """return the hash of a Plane"""
-        # Equal planes may have opposite normals, so hash the normal with a
-        # fixed sign (and the offset that belongs to it)
-        n = self.n
-        for coordinate in n:
-            if abs(coordinate) > get_eps():
-                if coordinate < 0:
-                    n = -n
-                break
-        return hash(
-            (
-                "Plane",
-                round(n[0], get_sig_figures()),
-                round(n[1], get_sig_figures()),
-                round(n[2], get_sig_figures()),
-                round(n * self.p.pv(), get_sig_figures()),
-            )
+        # Equal planes may have opposite normals: (n, d) and (-n, -d) describe
+        # the same plane. Hash both forms in a fixed order, so that the result
+        # does not depend on the orientation. (Hashing only one form with a
+        # fixed sign would let offsets -1 and -2 collide, because
+        # hash(-1.0) == hash(-2.0) in CPython; with both forms, d and -d take
+        # part. ConvexPolygon.__eq__ compares hashes and relies on that.)
+        form = (
+            round(self.n[0], get_sig_figures()),
+            round(self.n[1], get_sig_figures()),
+            round(self.n[2], get_sig_figures()),
+            round(self.n * self.p.pv(), get_sig_figures()),
         )
+        opposite = tuple(-x for x in form)
+        return hash(("Plane", min(form, opposite), max(form, opposite)))
 
     def move(self, v):
         """Return the plane that you get when you move self by vector v, self is also moved"""
